@@ -415,3 +415,32 @@ def run_safety(ctx, n=None, beh=None, inputs=None, label="MarkupSafetyTrace (arb
     st["bad"] = len(res["bad"])
     st["events_list"] = events
     return st
+
+
+def safety_selftest(ctx, events):
+    """Corrupt three accepted events (range beyond the text, negative length, a TextForAttribute panic):
+    MarkupSafetyTrace must reject exactly those."""
+    out, picked = [], {}
+    kinds = ["range-outside-text", "negative-range", "text-for-attribute-panics"]
+    for e in events[:3000]:
+        if len(picked) < 3 and e["outcome"] == "result" and e["attrs"]:
+            e = json.loads(json.dumps(e))
+            k = kinds[len(picked)]
+            if k == "range-outside-text":
+                e["attrs"][0][1] = e["textLen"] - e["attrs"][0][0] + 1
+            elif k == "negative-range":
+                e["attrs"][0][1] = -1
+            else:
+                e["tfa"][0] = 1
+            picked[len(out) + 1] = k
+        out.append(e)
+    if len(picked) < 3:
+        raise vlib.MachineryError("safety self-test: not enough results with attributes")
+    path = ctx.path("sself.ndjson")
+    vlib.write_ndjson(path, out)
+    t = ctx.tlc("MarkupSafetyTrace", files=[("trace.ndjson", path)], workers=1, timeout=600,
+                label="MarkupSafetyTrace (self-test, 3 corrupted events)")
+    got = {b["line"]: b["what"] for b in t.printed("RESULT")[-1]["bad"]}
+    if got != picked:
+        raise vlib.MachineryError("safety self-test failed: corrupted %s, rejected %s" % (picked, got))
+    return {"corrupted_events": sorted(picked), "rejected_as": [picked[k] for k in sorted(picked)], "ok": True}
